@@ -10,8 +10,11 @@ namespace smt
     SMT_EXPORT lra_theory::lra_theory(sat_core &sat, const lra_theory &orig) : theory(sat), c_bounds(orig.c_bounds), vals(orig.vals), exprs(orig.exprs), s_asrts(orig.s_asrts), layers(orig.layers), listening(orig.listening)
     {
         t_watches.resize(orig.t_watches.size());
+#ifdef PARALLELIZE
+        t_mtxs.resize(orig.t_watches.size());
+#endif
         for (const auto &[v, r] : orig.tableau)
-            tableau.emplace(v, new row(*this, v, r->l));
+            new_row(v, r->l);
 
         a_watches.resize(orig.a_watches.size());
         for (const auto &[ctr_v, a] : orig.v_asrts)
